@@ -331,7 +331,10 @@ def evaluate__exp(self: XPathFunction, context: ta.ContextType = None) -> ta.One
     arg: ta.NumericType = self.get_argument(self.context or context, cls=NumericProxy)
     if arg is None:
         return []
-    return math.exp(arg)
+    try:
+        return math.exp(arg)
+    except OverflowError:
+        return float('inf') if arg > 0 else 0.0
 
 
 @method(function('exp10', prefix='math', nargs=1, sequence_types=('xs:double?', 'xs:double?')))
@@ -339,7 +342,11 @@ def evaluate__exp10(self: XPathFunction, context: ta.ContextType = None) -> ta.O
     arg: ta.NumericType = self.get_argument(self.context or context, cls=NumericProxy)
     if arg is None:
         return []
-    return float(10 ** arg)
+    try:
+        # xs:double arithmetic: an integer exponent must not build a huge integer
+        return 10.0 ** float(arg)
+    except OverflowError:
+        return float('inf') if arg > 0 else 0.0
 
 
 @method(function('log', prefix='math', nargs=1, sequence_types=('xs:double?', 'xs:double?')))
@@ -372,9 +379,13 @@ def evaluate__pow(self: XPathFunction, context: ta.ContextType = None) -> ta.One
         return math.copysign(float('inf'), x) if (y % 2) == 1 else float('inf')
 
     try:
-        return float(x ** y)
+        return float(float(x) ** float(y))  # xs:double arithmetic, also for integer and decimal operands
     except TypeError:
         return math.nan
+    except OverflowError:
+        if y < 0:
+            return 0.0
+        return float('-inf') if x < 0 and y % 2 == 1 else float('inf')
 
 
 @method(function('sqrt', prefix='math', nargs=1,
